@@ -225,6 +225,8 @@ class TrainerWorld(World):
             op = {"op": "step", "x": x, "y": y}
             if pooled:
                 op["x_b"] = [1 if ro.random() < pin else 0 for _ in range(cfg["B"] * int(np.prod(cfg["inshape_b"])))]
+                if trainer in THREE_FACTOR and ro.random() < 0.3:
+                    op["only"] = ro.choice(["a", "b"])      # the three-factor trainers can be asked to train a subset of their cells
             if trainer in THREE_FACTOR:
                 if cfg["reward"] == "scalar":
                     op["signal"] = ro.choice([1.0, -1.0, 0.5, -2.0, 0.0])
@@ -421,7 +423,8 @@ class TrainerWorld(World):
             with ctx.impl("trainer()", facts):
                 if three:
                     sig = op["signal"]
-                    trainer(torch.tensor(sig, dtype=torch.float32) if isinstance(sig, list) else float(sig), scale=op.get("scale", 1.0))
+                    kw3 = {"cells": [op["only"]]} if op.get("only") else {}
+                    trainer(torch.tensor(sig, dtype=torch.float32) if isinstance(sig, list) else float(sig), scale=op.get("scale", 1.0), **kw3)
                 else:
                     trainer()
                 layer.update()
@@ -432,6 +435,9 @@ class TrainerWorld(World):
                 target, epos, eneg = ex
                 delta = _f64(conn.weight) - p0[i]
                 want = epos - eneg
+                if op.get("only") and op["only"] != "ab"[i]:
+                    want = np.zeros_like(want)       # this cell was not selected for training at this step
+                    ctx.probe("selective_cells_argument")
                 tol = 3e-5 + 3e-4 * (np.abs(epos) + np.abs(eneg)) + 2e-6 * np.abs(p0[i])
                 ctx.judged += 1
                 if np.any(np.abs(delta - want) > tol):
